@@ -129,10 +129,6 @@ PartitionLemma ==
                                                  \in ILSrc[l][M \div Pow2(Dim * (LeafLevel - l))] }) = 1
 
 \* ---- emission of expected lists (spec -> code) -------------------------------
-SetToSortedSeq(S) ==
-  LET RECURSIVE F(_)
-      F(T) == IF T = {} THEN <<>> ELSE LET m == CHOOSE x \in T : \A y \in T : x <= y IN <<m>> \o F(T \ {m})
-  IN F(S)
 \* lists as sets of integers  index * 7^Dim + code  (fits 31 bits for the bounded heights)
 ILInts    == { x[1] * (7^Dim) + x[2] : x \in ILI[L][M] }
 NeighInts == { x[1] * (3^Dim) + x[2] : x \in NBI[L][M] }
@@ -143,5 +139,5 @@ Axioms == [ Bijection |-> Bijection, ParentContains |-> ParentContains, ChildCod
 Emit == EmitJson => PrintT(ToJson([ k |-> "cell", l |-> L, m |-> M, c |-> C, ax |-> Axioms,
                                    p |-> IF L > 0 THEN Index(ParentC(C), L-1) ELSE 0 - 1,
                                    cc |-> IF L > 0 THEN ChildCodeC(C) ELSE 0 - 1,
-                                   il |-> SetToSortedSeq(ILInts), nb |-> SetToSortedSeq(NeighInts) ]))
+                                   il |-> ILInts, nb |-> NeighInts ]))
 =============================================================================
